@@ -277,3 +277,37 @@ Proof.
   rewrite (nth_indep _ wn (next_window wn)) by (rewrite level_windows_length; lia).
   rewrite IH by lia. rewrite iter_swap. reflexivity.
 Qed.
+
+(* band_split_matches_dwt.  split_len n e is the number of low-pass samples of the 1-D 5/3
+   transform of a signal of length n whose first sample has parity e: in DwtModel the
+   transform of a window of width n continues on the first split_lengths n e samples
+   (next_window; split_len_dwt above identifies the two functions for every n).  As an
+   independent check on the transform itself, FINITE (all lengths up to 200, both parities):
+   the constant signal 1 transforms to exactly split_len n e ones (low-pass) followed by
+   zeros (high-pass) — so fwd53 produces split_len n e low-pass samples.  (n = 1 with odd
+   parity is the doubling special case and is excluded: the output is [2].) *)
+Definition lowpass_count_ok (e : bool) (n : nat) : bool :=
+  let k := Z.to_nat (split_len (Z.of_nat n) e) in
+  if list_eq_dec Z.eq_dec (fwd53 e (repeat 1 n)) (repeat 1 k ++ repeat 0 (n - k)) then true else false.
+
+Lemma fwd53_lowpass_count_finite :
+  forallb (lowpass_count_ok true) (seq 0 201) = true /\ forallb (lowpass_count_ok false) (seq 2 199) = true.
+Proof. split; vm_compute; reflexivity. Qed.
+
+Theorem band_split_matches_dwt : forall (e : bool) (n : nat), (n <= 200)%nat -> (e = false -> 2 <= n)%nat ->
+  let k := Z.to_nat (split_len (Z.of_nat n) e) in
+  fwd53 e (repeat 1 n) = repeat 1 k ++ repeat 0 (n - k) /\
+  k = split_lengths n e /\
+  win_step (Z.of_nat n, Z.of_nat n, if e then 0 else 1, if e then 0 else 1)
+    = win_of (next_window (n, n, (if e then 0 else 1), (if e then 0 else 1))).
+Proof.
+  intros e n Hn He. cbv zeta. split; [|split].
+  - destruct fwd53_lowpass_count_finite as [H1 H2]. rewrite forallb_forall in H1, H2.
+    destruct e.
+    + specialize (H1 n ltac:(apply in_seq; lia)). unfold lowpass_count_ok in H1.
+      destruct (list_eq_dec Z.eq_dec _ _) as [E|]; [exact E|discriminate].
+    + specialize (He eq_refl). specialize (H2 n ltac:(apply in_seq; lia)). unfold lowpass_count_ok in H2.
+      destruct (list_eq_dec Z.eq_dec _ _) as [E|]; [exact E|discriminate].
+  - rewrite split_len_dwt. lia.
+  - apply (win_step_dwt (n, n, (if e then 0 else 1), (if e then 0 else 1))).
+Qed.
